@@ -222,8 +222,13 @@ func hasCause(att *AttemptResult, name string) bool {
 
 func leakText(gs []libGoroutine) string {
 	var parts []string
+	seen := map[string]int{}
 	for _, g := range gs {
-		parts = append(parts, fmt.Sprintf("%s@%s[%s]", g.Top, g.Where, g.Role))
+		k := fmt.Sprintf("%s@%s[%s]", g.Top, g.Where, g.Role)
+		if seen[k] == 0 {
+			parts = append(parts, k)
+		}
+		seen[k]++
 	}
 	return strings.Join(parts, "; ")
 }
@@ -307,7 +312,7 @@ func checkC06(r *Run) []Violation {
 			if att.StreamErr == nil {
 				vs = append(vs, Violation{"C06", "stream-nil-on-failure", fmt.Sprintf("attempt ended by %s but Stream returned nil", cause), i})
 			}
-		case "cancel", "eof-packet":
+		case "cancel", "cancel-at-dial", "eof-packet":
 			// clean ends: nothing is demanded by the property
 		case "fin", "rst", "short-packet", "bad-seq", "read-timeout", "err-packet":
 			if att.StreamErr == nil && haveErr && errRes == nil {
@@ -541,29 +546,6 @@ func checkC08(r *Run) []Violation {
 	for _, c := range r.calls {
 		if c.ScribbleNote != "" {
 			vs = append(vs, Violation{"C08", "scribble-propagated", c.ScribbleNote, c.Attempt})
-		}
-	}
-	if r.sc.Scribble {
-		// every later delivery must still equal the model although earlier
-		// deliveries were overwritten
-		for i, att := range r.Results {
-			if att.Master == nil || len(att.Master.Dumps) == 0 || !att.Master.Dumps[0].Served {
-				continue
-			}
-			d := att.Master.Dumps[0]
-			exp, ok := r.sc.Hist.Model(Pos{d.File, int64(d.Offset)})
-			if !ok {
-				continue
-			}
-			for k, c := range att.Calls {
-				if k >= len(exp) || c.Snap == nil {
-					break
-				}
-				if rule, detail := compareTx(exp[k], c.Snap); rule != "" {
-					vs = append(vs, Violation{"C08", "later-delivery-corrupted", fmt.Sprintf("delivery %d after earlier deliveries were overwritten by the handler: %s: %s", k, rule, detail), i})
-					return vs
-				}
-			}
 		}
 	}
 	return vs
